@@ -17,6 +17,7 @@ import (
 	"nhooyr.io/websocket"
 	"pgregory.net/rapid"
 	"verif/harness/evid"
+	"verif/harness/memconn"
 	"verif/harness/ref"
 	"verif/harness/wsx"
 )
@@ -288,7 +289,7 @@ func checkC11(q c11Req, text, verdict, key string, out c11Outcome) string {
 
 func TestC11(t *testing.T) {
 	rec := evid.For("C11")
-	rec.Rule = "raw HTTP/1.x request text built from a valid upgrade request by 0-2 field mutations (method, HTTP version, Connection / Upgrade token lists incl. case, several tokens, several lines and near-misses, Sec-WebSocket-Version values, key variants: 15/17/32/0 bytes, bad alphabet, URL-safe alphabet, missing padding, missing, duplicated), offered x supported subprotocol lists; parsed by http.ReadRequest and given to Accept with a recording hijacker; an independent predicate over the raw text says valid / invalid / either. A second stage sends the text plus pipelined client frames in one write to a real net/http server on loopback. Non-trivial: exactly one field mutated, or a valid request with multi-token/multi-line headers or a subprotocol match. distinct = hash(request text, supported list)."
+	rec.Rule = "raw HTTP/1.x request text built from a valid upgrade request by 0-2 field mutations (method, HTTP version, Connection / Upgrade token lists incl. case, several tokens, several lines and near-misses, Sec-WebSocket-Version values, key variants: 15/17/32/0 bytes, bad alphabet, URL-safe alphabet, missing padding, missing, duplicated), offered x supported subprotocol lists; parsed by http.ReadRequest and given to Accept with a recording hijacker (in one case of twelve with a ResponseWriter that has no Hijack method: never a 101); an independent predicate over the raw text says valid / invalid / either. A second stage sends the text plus pipelined client frames in one write to a real net/http server on loopback. Non-trivial: exactly one field mutated, or a valid request with multi-token/multi-line headers or a subprotocol match. distinct = hash(request text, supported list)."
 	rapid.Check(t, func(rt *rapid.T) {
 		q := genC11(rt)
 		text := q.render()
@@ -296,6 +297,23 @@ func TestC11(t *testing.T) {
 		r, err := http.ReadRequest(bufio.NewReader(strings.NewReader(text)))
 		if err != nil {
 			rec.Class("unparsable-by-net/http", 1)
+			return
+		}
+		if rapid.IntRange(0, 11).Draw(rt, "plainWriter") == 0 {
+			// a ResponseWriter that cannot be hijacked (middleware wrapper, HTTP/2, TimeoutHandler): no
+			// request can be upgraded through it, and none may be answered 101
+			lib, peer := memconn.Pipe()
+			rw := wsx.NewRespWriter(lib)
+			conn, aerr := websocket.Accept(struct{ http.ResponseWriter }{rw}, r, &websocket.AcceptOptions{Subprotocols: q.Supported})
+			if conn != nil {
+				conn.CloseNow()
+			}
+			lib.Close()
+			peer.Close()
+			rec.Case(true, "plain-writer|"+text, "response-writer-without-hijack", "verdict:"+verdict)
+			if aerr == nil || conn != nil || rw.Code == 101 || rw.Hijacked {
+				rt.Fatalf("C11: a ResponseWriter without Hijack: Accept returned conn=%v err=%v and answered status %d (the client would take a 101 for an upgrade that never happens)\nrequest:\n%s", conn != nil, aerr, rw.Code, text)
+			}
 			return
 		}
 		sv, aerr := wsx.AcceptReq(r, &websocket.AcceptOptions{Subprotocols: q.Supported}, nil)
